@@ -679,7 +679,10 @@ func registerImportChecks() {
 	// C19: exhaustive combinations
 	mk("C19", true, func(cx *CheckCtx) []*Case {
 		var cs []*Case
-		preambles := [][]string{nil, {"#include <a.h>"}, {"#include <a.h>\n#include <b.h>"}, {"// #include <raw.h>"}, {"#include <a.h>", "/* second */", "int x;"}, {"#include <a.h>", "#include <a.h>"}, {"#define T int", "#include \"v.h\"", "#undef T\n#define T float", "#include \"v.h\""}}
+		preambles := [][]string{nil, {"#include <a.h>"}, {"#include <a.h>\n#include <b.h>"}, {"// #include <raw.h>"}, {"#include <a.h>", "/* second */", "int x;"}, {"#include <a.h>", "#include <a.h>"}, {"#define T int", "#include \"v.h\"", "#undef T\n#define T float", "#include \"v.h\""},
+			// texts that begin and/or end with line breaks (back-quoted literals opened on their own
+			// line), with comment-looking lines inside: not the raw form — the FIRST bytes decide
+			{"#include <a.h>", "\n// helpers\n", "int x;"}, {"\n/* section */\n"}, {"\r\n// crlf first\r\n#include <c.h>"}, {"\n\n#include <a.h>\n\n"}, {" // blank first", "\t/* tab first */"}}
 		others := [][]string{nil, {"fmt"}, {"a.com/d", "b.com/d", "os"}, {"x.com/c"}, {"a.com/C"},
 			{"9fans.net/go/acme", "fmt"}, {"Azure.com/sdk", "B.io/x"}, {"-x.org/y"}}
 		n := 0
